@@ -30,8 +30,14 @@ type Mod struct {
 	Files  []File `json:"files"`
 	Anchor string `json:"anchor"` // the .proto file other modules import; carries this module's imports
 	Deps   []int  `json:"deps"`   // indices (< own index) of the modules imported directly
-	Yaml   *Obj   `json:"yaml,omitempty"`
-	Lock   *Obj   `json:"lock,omitempty"`
+	// Twins lists dependencies (members of the transitive closure) that this module additionally
+	// depends on a second time through a content-identical module published under another name
+	// (a fork/mirror): the same b5 digest then occurs once more among the dependency digests.
+	// buf rejects two modules with the same .proto paths inside one workspace, so a twin can only
+	// be a pinned dependency key of a remote module; a module with twins is always presented remote.
+	Twins []int `json:"twins,omitempty"`
+	Yaml  *Obj  `json:"yaml,omitempty"`
+	Lock  *Obj  `json:"lock,omitempty"`
 }
 
 // ModView is how one module is presented to buf: nothing in here may influence a digest.
@@ -51,7 +57,7 @@ type ModView struct {
 // View is one presentation of a whole module graph.
 type View struct {
 	Mods      []ModView `json:"mods"`
-	RemoteVia string    `json:"remote_via"` // omni | wrap | store-dir | store-tar
+	RemoteVia string    `json:"remote_via"` // omni | wrap | store-dir | store-tar | pinned
 	Retarget  []int     `json:"retarget,omitempty"`
 }
 
@@ -126,6 +132,9 @@ func reference(mods []Mod) refDigests {
 		for _, d := range cl[i] {
 			deps = append(deps, r.b5[d])
 		}
+		for _, d := range m.Twins {
+			deps = append(deps, r.b5[d]) // the fork has the digest of the module it mirrors
+		}
 		files := fileMap(m)
 		r.b5[i] = digestref.B5(files, deps)
 		r.b4[i] = digestref.B4(files, objMap(m))
@@ -167,7 +176,12 @@ func expectedB5Change(a, b []Mod) []bool {
 	ca, cb := closure(a), closure(b)
 	out := make([]bool, len(a))
 	for i := range a {
-		ch := !sameModuleFiles(a[i], b[i])
+		ch := !sameModuleFiles(a[i], b[i]) || !sameInts(a[i].Twins, b[i].Twins)
+		for _, d := range a[i].Twins {
+			if out[d] {
+				ch = true
+			}
+		}
 		if len(ca[i]) != len(cb[i]) {
 			ch = true
 		} else {
@@ -180,6 +194,30 @@ func expectedB5Change(a, b []Mod) []bool {
 		out[i] = ch
 	}
 	return out
+}
+
+func sameInts(a, b []int) bool {
+	x, y := append([]int{}, a...), append([]int{}, b...)
+	sort.Ints(x)
+	sort.Ints(y)
+	if len(x) != len(y) {
+		return false
+	}
+	for i := range x {
+		if x[i] != y[i] {
+			return false
+		}
+	}
+	return true
+}
+
+func hasTwins(mods []Mod) bool {
+	for _, m := range mods {
+		if len(m.Twins) > 0 {
+			return true
+		}
+	}
+	return false
 }
 
 func moduleFilePaths(m Mod) []string {
@@ -212,6 +250,7 @@ func cloneMods(mods []Mod) []Mod {
 			c.Files[k] = File{Path: f.Path, Head: f.Head, Tail: append([]byte(nil), f.Tail...)}
 		}
 		c.Deps = append([]int(nil), m.Deps...)
+		c.Twins = append([]int(nil), m.Twins...)
 		out[i] = c
 	}
 	return out
